@@ -82,3 +82,15 @@ def collect(P):
     # ... and a lower bound above u32::MAX yields nothing
     P.flag("BITUNPACKER_RANGE_START_ABOVE_U32_EMPTY", bp,
            r"if \*range\.start\(\) > u32::MAX as u64 \{\s*positions\.clear\(\);\s*return;")
+    # legacy (format v1) multivalued index
+    mv = "columnar/src/column_index/multivalued_index.rs"
+    # MultiValueIndexV1::select_batch_in_place: the end offset of a document is EXCLUSIVE (`end > pos`); 1 iff so
+    P.flag("MV1_SELECT_END_EXCLUSIVE", mv,
+           r"impl MultiValueIndexV1 \{(?:(?!MultiValueIndexV2).)*?fn select_batch_in_place(?:(?!MultiValueIndexV2).)*?if end > pos \{")
+    st = "columnar/src/column_index/merge/stacked.rs"
+    # stacked merge, v1 input: doc ids with values are shifted by the row offset of the input; 1 iff so
+    P.flag("STACK_V1_DOCS_SHIFTED", st,
+           r"MultiValueIndex::MultiValueIndexV1\(multivalued_index\) => \{(?:(?!MultiValueIndexV2).)*?Some\(docid \+ doc_range\.start\)")
+    # stacked merge: value-less documents of a v1 input contribute no start offset (fix of F82); 1 iff the filter is there
+    P.flag("STACK_NUM_VALUES_SKIPS_EMPTY", st,
+           r"fn get_num_values_iterator(?:(?!\nfn |\nimpl ).)*?\.skip\(1\)\s*(?://[^\n]*\n\s*)*\.filter\(\|\s*&?num_vals\s*\|\s*\*?num_vals\s*(?:>\s*0|!=\s*0)")
